@@ -18,6 +18,16 @@ import itertools
 import z3
 
 INT, BOOL, STR, REAL, NULLT = "int", "bool", "str", "real", "null"
+# temporal types: DATE = days since 1970-01-01, DT = microseconds since 1970-01-01T00:00 (both
+# z3 Int).  DT0 exists only inside SEM_sqlite: a datetime whose SQLite *text* has no
+# fractional part ('YYYY-MM-DD HH:MM:SS', what datetime() returns) - same payload as DT.
+# DTX (SEM_sqlite only): a temporal text whose form is known only per row (result of CASE /
+# coalesce / min / max over different forms); payload = its text-order key (sem_sqlite.text_key).
+DATE, DT, DT0, DTX = "date", "datetime", "datetime0", "temporal-text"
+TEMPORAL = (DATE, DT, DT0, DTX)
+US_DAY = 86_400_000_000
+# bounded domain of symbolic dates: 1960-01-01 .. 2099-12-31 (DESIGN 2.1 Bounds)
+DAY_LO, DAY_HI = -3653, 47481
 
 _fresh_ctr = itertools.count()
 
@@ -27,10 +37,14 @@ def fresh(prefix: str, sort):
 
 
 def zsort(ty):
+    if ty in TEMPORAL:
+        return z3.IntSort()
     return {INT: z3.IntSort(), BOOL: z3.BoolSort(), STR: z3.StringSort(), REAL: z3.RealSort()}[ty]
 
 
 def zdefault(ty):
+    if ty in TEMPORAL:
+        return z3.IntVal(0)
     return {INT: z3.IntVal(0), BOOL: z3.BoolVal(False), STR: z3.StringVal(""), REAL: z3.RealVal(0)}[ty]
 
 
@@ -125,7 +139,40 @@ def lit(v) -> Cell:
         return Cell(REAL, FALSE, z3.RealVal(f"{fr.numerator}/{fr.denominator}"))
     if isinstance(v, str):
         return Cell(STR, FALSE, z3.StringVal(v))
+    import datetime as _dt
+
+    if isinstance(v, _dt.datetime):
+        if v.tzinfo is not None:
+            raise Unsupported("timezone-aware datetime literal")
+        return Cell(DT, FALSE, z3.IntVal(dt_to_us(v)))
+    if isinstance(v, _dt.date):
+        return Cell(DATE, FALSE, z3.IntVal(date_to_days(v)))
     raise Unsupported(f"literal {v!r}")
+
+
+def date_to_days(d):
+    import datetime as _dt
+
+    return (d - _dt.date(1970, 1, 1)).days
+
+
+def dt_to_us(t):
+    import datetime as _dt
+
+    delta = t - _dt.datetime(1970, 1, 1)
+    return (delta.days * 86400 + delta.seconds) * 1_000_000 + delta.microseconds
+
+
+def days_to_date(n):
+    import datetime as _dt
+
+    return _dt.date(1970, 1, 1) + _dt.timedelta(days=n)
+
+
+def us_to_dt(n):
+    import datetime as _dt
+
+    return _dt.datetime(1970, 1, 1) + _dt.timedelta(microseconds=n)
 
 
 def null_of(ty) -> Cell:
@@ -197,10 +244,74 @@ def from_bool(b, null=FALSE) -> Cell:
 
 
 # --------------------------------------------------------------------------------------
+# proleptic Gregorian calendar (H. Hinnant's civil_from_days; z3 `/` and `%` on Int are the
+# floor / Euclidean operations for positive constants)
+
+
+def civil(days):
+    """(year, month, day, day-of-year 1..366) of a day number (z3 Int terms)"""
+    z = days + 719468
+    era = z / 146097
+    doe = z - era * 146097
+    yoe = (doe - doe / 1460 + doe / 36524 - doe / 146096) / 365
+    doy = doe - (365 * yoe + yoe / 4 - yoe / 100)
+    mp = (5 * doy + 2) / 153
+    d = doy - (153 * mp + 2) / 5 + 1
+    m = If(mp < 10, mp + 3, mp - 9)
+    y = yoe + era * 400 + If(m <= 2, 1, 0)
+    # ordinal day counted from 1 January
+    y1 = y - 1
+    era1 = y1 / 400
+    yoe1 = y1 - era1 * 400
+    jan1 = era1 * 146097 + yoe1 * 365 + yoe1 / 4 - yoe1 / 100 + 306 - 719468
+    return y, m, d, days - jan1 + 1
+
+
+def temporal_field(c: Cell, field) -> Cell:
+    """year/month/day/hour/minute/second/day_of_week (ISO, Monday=1)/day_of_year as INT"""
+    if c.ty == NULLT:
+        return null_of(INT)
+    if c.ty not in TEMPORAL:
+        raise Unsupported(f"temporal field of {c.ty}")
+    if c.ty == DATE:
+        days, sod = c.val, z3.IntVal(0)
+    else:
+        days, sod = c.val / US_DAY, c.val % US_DAY
+    if field in ("year", "month", "day", "day_of_year"):
+        y, m, d, j = civil(days)
+        v = {"year": y, "month": m, "day": d, "day_of_year": j}[field]
+    elif field == "day_of_week":
+        v = (days + 3) % 7 + 1
+    elif field == "hour":
+        v = sod / 3_600_000_000
+    elif field == "minute":
+        v = (sod / 60_000_000) % 60
+    elif field == "second":
+        v = (sod / 1_000_000) % 60
+    else:
+        raise Unsupported(f"temporal field {field}")
+    return Cell(INT, c.null, v)
+
+
+def dt_to_date(c: Cell) -> Cell:
+    if c.ty == NULLT:
+        return null_of(DATE)
+    return Cell(DATE, c.null, c.val / US_DAY)
+
+
+def date_to_dt(c: Cell) -> Cell:
+    if c.ty == NULLT:
+        return null_of(DT)
+    return Cell(DT, c.null, c.val * US_DAY)
+
+
+# --------------------------------------------------------------------------------------
 # element-wise operations (null-propagating unless stated)
 
 
 def arith(op, a: Cell, b: Cell) -> Cell:
+    if a.ty in TEMPORAL or b.ty in TEMPORAL:
+        raise Unsupported("temporal arithmetic (durations are outside the model)")
     if a.ty == STR or b.ty == STR:
         if op != "+":
             raise Unsupported(f"string op {op}")
@@ -494,6 +605,10 @@ class SymInput:
                     # dyadic quarter values m/4, |m| <= 4*int_bound
                     m = z3.Int(f"{name}.{col}[{i}].m")
                     self.constraints += [v == z3.ToReal(m) / 4, m >= -4 * int_bound, m <= 4 * int_bound]
+                if ty == DATE:
+                    self.constraints += [v >= DAY_LO, v <= DAY_HI]
+                if ty == DT:
+                    self.constraints += [v >= DAY_LO * US_DAY, v < (DAY_HI + 1) * US_DAY]
                 if ty == STR:
                     if str_len is not None:
                         self.constraints.append(z3.Length(v) <= str_len)
@@ -543,12 +658,20 @@ def lit_val(v, ty):
         return z3.IntVal(int(v))
     if ty == BOOL:
         return z3.BoolVal(bool(v))
+    if ty == DATE:
+        return z3.IntVal(date_to_days(v))
+    if ty in (DT, DT0):
+        return z3.IntVal(dt_to_us(v))
     return z3.StringVal(v)
 
 
 def pyval(z, ty):
     if ty == INT:
         return z.as_long()
+    if ty == DATE:
+        return days_to_date(z.as_long())
+    if ty in (DT, DT0):
+        return us_to_dt(z.as_long())
     if ty == BOOL:
         return z3.is_true(z)
     if ty == STR:
@@ -904,8 +1027,16 @@ def rel_join(a: Rel, b: Rel, on_fn, how):
 # equality of relations
 
 
+def _cell_eq(a: Cell, b: Cell):
+    try:
+        return null_safe_eq(a, b)
+    except Unsupported:
+        # values of unrelated types (text vs date, ...) are equal only if both are null
+        return And(a.null, b.null)
+
+
 def _row_eq(A: Rel, i, B: Rel, j, pairs):
-    return And(*[null_safe_eq(A.data[ca][i], B.data[cb][j]) for ca, cb in pairs])
+    return And(*[_cell_eq(A.data[ca][i], B.data[cb][j]) for ca, cb in pairs])
 
 
 def _col_pairs(A: Rel, B: Rel):
